@@ -65,7 +65,7 @@ def cases_ranges(tier, seed):
 def cases_sparse(tier, seed):
     for n in (5, 99, 100, 101, 102, 150, 250, 400):
         for orient in ('col', 'row'):
-            for fill in ('ends', 'ends+mid', 'last-only', 'text-ends'):
+            for fill in ('ends', 'ends+mid', 'last-only', 'text-ends', 'zero-end', 'false-end', 'zeros'):
                 yield dict(kind='sparse', n=n, orient=orient, fill=fill)
     for rows, cols in ((120, 2), (3, 130), (105, 3)):
         yield dict(kind='sparse2d', rows=rows, cols=cols)
@@ -133,13 +133,17 @@ def oracle(c):
         cells = {}
         n = c['n']
         addr = (lambda i: f'Sheet1!A{i}') if c['orient'] == 'col' else (lambda i: f'Sheet1!{get_column_letter(i)}1')
-        fill = {'ends': {1: 3, n: 4}, 'ends+mid': {1: 3, n // 2 + 1: 5, n: 4}, 'last-only': {n: 7}, 'text-ends': {1: 'x', n: 'y'}}[c['fill']]
+        fill = {'ends': {1: 3, n: 4}, 'ends+mid': {1: 3, n // 2 + 1: 5, n: 4}, 'last-only': {n: 7}, 'text-ends': {1: 'x', n: 'y'},
+                'zero-end': {1: 3, n: 0}, 'false-end': {1: 3, n: False}, 'zeros': {n - 1: 0.0, n: 0}}[c['fill']]
         for i, v in fill.items():
             cells[addr(i)] = v
         rng_ref = f'{addr(1).split("!")[1]}:{addr(n).split("!")[1]}'
         cells['Sheet1!B300'] = f'=SUM({rng_ref})'
-        nums = [v for v in fill.values() if not isinstance(v, str)]
+        nums = [v for v in fill.values() if not isinstance(v, (str, bool))]
         probes = [('Sheet1!B300', ('num', sum(nums)))]
+        cells['Sheet1!B303'] = f'=MIN({rng_ref})'
+        if nums:
+            probes.append(('Sheet1!B303', ('num', min(nums))))
         if n <= 250:        # (COUNTA / CONCAT limit the number of values they take: C14's business)
             cells['Sheet1!B301'] = f'=COUNTA({rng_ref})'
             cells['Sheet1!B302'] = f'=CONCAT({rng_ref})'
